@@ -27,6 +27,7 @@ def run(ctx):
         ctx.guard("C16", "full-eq", lambda: eqord.full_eq(ctx, prog))
         ctx.guard("C16", "traits", lambda: vis.trait_census(ctx, prog, scope='core::cmp::|core::hash::Hash'))
         ctx.guard("C16", "const values", lambda: data.const_census(ctx, prog, data.CONST_SCOPES["C16"], floor=1))
+        ctx.guard("C16", "panic conditions", lambda: beliefs.live_census(ctx, prog, beliefs.SCOPES["C16"][0]))
         ctx.guard("C16", "summaries", lambda: summary.check(ctx, prog, 'core::cmp::|core::hash::Hash|::cmp_by_block_size|block_size::cmp', floor=2))
         ctx.guard("C16", "path summaries", lambda: summary.check_paths(ctx, prog, 'core::cmp::|core::hash::Hash|::cmp_by_block_size|block_size::cmp', floor=2))
         if c in ("dbg", "unsafe_dbg", "strict_dbg"):
